@@ -811,7 +811,7 @@ class ConsumerMdib(mdibbase.MdibBase):
             if updated_descriptor_by_handle:
                 self.updated_descriptors_by_handle = updated_descriptor_by_handle
             if deleted_descriptor_by_handle:
-                self.deleted_descriptor_by_handle = deleted_descriptor_by_handle
+                self.deleted_descriptors_by_handle = deleted_descriptor_by_handle
 
     def _has_new_state_usable_state_version(
         self,
